@@ -380,8 +380,8 @@ Example C04_indep_unconditional_run :
   (run 1, run 2, run 9, run 12) = ((true, 120), (true, 120), (true, 120), (true, 120)).
 Proof. vm_compute. reflexivity. Qed.
 
-(* linked blocks / -D dictionary through the STREAMING models (Proofs/BlkInstLinked.v, BlkInstHcLinked.v; see Properties_C03.v) *)
-From LZ4V Require Import Model.FastStream Model.HcTabStream Model.HcOptStream Proofs.BlkInstLinked Proofs.BlkInstHcLinked.
+(* linked blocks / -D dictionary through the STREAMING models (Proofs/BlkInstFastLinked.v, BlkInstHcLinked.v; see Properties_C03.v) *)
+From LZ4V Require Import Model.FastStream Model.HcTabStream Model.HcOptStream Proofs.BlkInstFastLinked Proofs.BlkInstHcLinked.
 Theorem C04_st_roundtrip_fast_stream_unconditional : forall st, (forall n, lorc_ok (st n)) ->
   forall (skipcrc : bool) (p : lz4f_prefs) (blockSize : Z) (dict content : list Z),
   fp_level p < LZ4HC_CLEVEL_MIN ->
